@@ -118,6 +118,54 @@ func Catch(f func()) (res int) {
 	return 0
 }
 
+// RunUntilParked runs a loop function that is expected to block (wait for more events) after it has
+// processed the offered events: returns 2 when it is parked (symbolically: the would-block signal; natively:
+// all offers taken plus a grace period, the goroutine keeps waiting), 0 if it returned, 1 if it panicked.
+func RunUntilParked(f func()) int {
+	res := make(chan int, 1)
+	go func() {
+		defer func() {
+			if r := recover(); r != nil {
+				res <- 1
+			}
+		}()
+		f()
+		res <- 0
+	}()
+	for i := 0; i < 4000 && atomic.LoadInt32(&pendingOffers) > 0; i++ {
+		time.Sleep(time.Millisecond)
+	}
+	select {
+	case r := <-res:
+		return r
+	case <-time.After(100 * time.Millisecond):
+		return 2
+	}
+}
+
+// Bounded runs f; false if it does not finish (symbolically: within the loop / step budget; natively:
+// within 5 seconds - the goroutine is abandoned).
+func Bounded(f func()) bool {
+	done := make(chan struct{})
+	var pv interface{}
+	go func() {
+		defer func() {
+			pv = recover()
+			close(done)
+		}()
+		f()
+	}()
+	select {
+	case <-done:
+		if pv != nil {
+			panic(pv)
+		}
+		return true
+	case <-time.After(5 * time.Second):
+		return false
+	}
+}
+
 func And(a, b bool) bool     { return a && b }
 func Or(a, b bool) bool      { return a || b }
 func Implies(a, b bool) bool { return !a || b }
